@@ -329,6 +329,9 @@ pub fn around_op(w_profile: &str, st: &mut SeqState, txn: &mut yrs::TransactionM
                         if let Some(v) = MapRef::from(ptr).get(txn, key) {
                             let id = value_id(txn, &v);
                             st.cur_writes.push((tgt, key.clone(), WKind::Set(id), nested_tgt(&v)));
+                        } else if st.placement_err.is_none() {
+                            // a local write causally follows everything the replica holds
+                            st.placement_err = Some(format!("key {:?} of {:?} is absent right after this replica wrote it ({:?})", key, tgt, op));
                         }
                     }
                 }
@@ -347,6 +350,8 @@ pub fn around_op(w_profile: &str, st: &mut SeqState, txn: &mut yrs::TransactionM
                         if let Some(v) = XmlElementRef::from(ptr).get_attribute(txn, key) {
                             let id = value_id(txn, &v);
                             st.cur_writes.push((tgt, key.clone(), WKind::Set(id), None));
+                        } else if st.placement_err.is_none() {
+                            st.placement_err = Some(format!("attribute {:?} of {:?} is absent right after this replica wrote it ({:?})", key, tgt, op));
                         }
                     }
                 }
@@ -568,6 +573,9 @@ pub fn check_seq_state(w: &mut World, n: usize, obs: &SeqObs, prof: &str) -> VRe
 
 fn post_lww(w: &mut World, n: usize, kind: &TxnKind, uid: Option<usize>) -> VResult {
     w.stats.oracle_evals += 1;
+    if let Some(e) = w.mon.sp.seq.placement_err.take() {
+        return Err(viol("lww.local-write-lost", format!("node {}: {}", n, e)));
+    }
     if let (TxnKind::Local, Some(u)) = (kind, uid) {
         let cur = std::mem::take(&mut w.mon.sp.seq.cur_writes);
         for (k, (map, key, wk, nested)) in cur.into_iter().enumerate() {
